@@ -215,54 +215,50 @@ def whole_run(ctx: Ctx, n_runs: int):
         a.run(print_result=False)
         statuses = a._account_status_list
         ctx.impl_traces += nbars
-        # the model's own fold, threaded by the harness (the driver is stateless)
+        # the model's own fold over the whole run (one driver request)
         names = [n for n, _ in G.V1_TOKENS]
-        state = {"glp": "0", "reward": "0", "wallet": [[tok.name, str(amount * 1)]]}
-        state["wallet"] = [[tok.name, G.fmt(a.init_account_status.asset_balances[tok])]]
         rep = {"world": None, "whole_run": {"start": start, "bars": nbars, "tok": tok_name, "amount": str(amount), "t_buy": t_buy, "t_sell": t_sell,
                                             "sell_part": str(sell_part) if sell_part else None}}
-        ok = True
+        bars = []
         for k in range(nbars):
             row = data.iloc[k]
             env = {"rows": [{"name": n, "price": F(row[f"{n}_price"]), "usdg": F(row[f"{n}_usdg"]), "weight": F(int(row[f"{n}_weight"]))} for n in names],
                    "tokenSet": names, "glp": F(row["glp"]), "aum": F(row["aum"]), "usdg": F(row["usdg"]), "interval": F(float(row["interval"])),
                    "glp_price": F(row["glp_price"]), "wavax_price": F(row["wavax_price"])}
-            reqs = []
+            ops = []
             if k == t_buy:
-                reqs.append({"kind": "buy", "tok": tok_name, "dec": 18, "amount": amount})
+                ops.append({"kind": "buy", "tok": tok_name, "dec": 18, "amount": amount})
             if k == t_sell:
-                reqs.append("SELL")
-            reqs.append({"kind": "update"})
-            for rq in reqs:
-                if rq == "SELL":
-                    g = F(state["glp"])
-                    rq = {"kind": "sell", "tok": tok_name, "dec": 18, "amount": (g * F(sell_part)) if sell_part else F(0)}
-                    if sell_part:
-                        # the strategy multiplies Decimals: reproduce the 35-digit product the implementation passes in
-                        rq["amount"] = Decimal(G.fmt(g)) * sell_part
-                ans = driver_json([{"fn": "gmx1.step", "env": env, "state": {"glp": state["glp"], "reward": state["reward"], "wallet": state["wallet"]}, "op": rq}],
-                                  exe="driver_gmx")[0] if ctx.driver_ok else None
-                if ans is None:
-                    break
-                if "error" in ans:
-                    ctx.disagree(f"whole run: driver error {ans['error']}", rep)
-                    ok = False
-                    break
-                state = {"glp": ans["state"]["glp"], "reward": ans["state"]["reward"], "wallet": ans["state"]["wallet"]}
-            if not ctx.driver_ok or not ok:
-                break
+                ops.append({"kind": "sellFrac", "tok": tok_name, "dec": 18, "frac": sell_part} if sell_part else {"kind": "sell", "tok": tok_name, "dec": 18, "amount": F(0)})
+            ops.append({"kind": "update"})
+            bars.append({"env": env, "ops": ops})
+        ok = True
+        model = None
+        if ctx.driver_ok:
+            model = driver_json([{"fn": "gmx1.run", "state": {"glp": "0", "reward": "0", "wallet": [[tok.name, a.init_account_status.asset_balances[tok]]]}, "bars": bars}],
+                                exe="driver_gmx")[0]
+            if isinstance(model, dict):
+                ctx.disagree(f"whole run: driver error {model}"[:300], rep)
+                ok, model = False, None
+        for k in range(nbars):
+            row = data.iloc[k]
             st = statuses[k]
             bal = st.market_status[key]
-            mb = driver_json([{"fn": "gmx1.balance", "env": env, "state": state}], exe="driver_gmx")[0]
             price = F(row[f"{tok_name}_price"]) / G.E30
             wallet_impl = F(st.asset_balances[tok])
             spec_nv = wallet_impl * price + F(bal.glp) * F(row["glp_price"]) + F(bal.reward) * F(row["wavax_price"]) / G.E30
             if abs(F(st.net_value) - spec_nv) > F(1, 10 ** 28) * max(abs(spec_nv), 1):
                 ctx.violate("gmx.v1.whole_run.net_value", f"bar {k}: account net value {st.net_value} != wallet x price + glp x glp_price + reward x wavax_price/1e30 = {float(spec_nv)!r}", rep)
-            if F(mb["net_value"]) != F(bal.net_value) or F(mb["glp"]) != F(bal.glp) or F(mb["reward"]) != F(bal.reward) or F(dict(map(tuple, state["wallet"]))[tok.name]) != wallet_impl:
-                ctx.disagree(f"whole run bar {k}: impl balance {bal} wallet {wallet_impl} model {mb} wallet {state['wallet']}"[:500], rep)
-                ok = False
                 break
+            if model is not None:
+                mb = model[k]
+                if F(mb["net_value"]) != F(bal.net_value) or F(mb["glp"]) != F(bal.glp) or F(mb["reward"]) != F(bal.reward) or F(dict(map(tuple, mb["wallet"]))[tok.name]) != wallet_impl:
+                    ctx.disagree(f"whole run bar {k}: impl balance {bal} wallet {wallet_impl} model {mb}"[:500], rep)
+                    ok = False
+                    break
+        if model is not None and int(model[-1]["actions"]) != len(a.actions):
+            ctx.disagree(f"whole run: {len(a.actions)} actions recorded, model {model[-1]['actions']}", rep)
+            ok = False
         ctx.case(f"v1:whole-run:{tok_name}:{'same-bar' if t_buy == t_sell else 'buy-hold-sell'}:{'part' if sell_part else 'all'}:{'agree' if ok else 'DISAGREE'}",
                  rep["whole_run"], n=nbars)
     logging.disable(logging.NOTSET)
